@@ -230,7 +230,7 @@ pub fn phases(cfg: &Cfg) -> Vec<Box<dyn Phase>> {
             plans: if t { 6 } else { 4 },
         }),
         Box::new(Programs {
-            n: cfg.n(100_000, 4_000_000),
+            n: cfg.n(250_000, 4_000_000),
             plans: if t { 16 } else { 4 },
         }),
         Box::new(CommentRules {
